@@ -45,7 +45,7 @@ func (s *c20) Property() string { return "C20" }
 func (s *c20) Build(w *World) {
 	t := w.Tape
 	drawProfile(w)
-	s.dag = GenDAG(t, GenCfg{MaxBlocks: 4 + t.Draw(16), MaxDepth: 2 + t.Draw(4), BlockPad: []int{0, 0, 40}[t.Draw(3)], Share: []int{100, 300, 500}[t.Draw(3)], Empty: []int{0, 0, 80}[t.Draw(3)]})
+	s.dag = GenDAG(t, GenCfg{MaxBlocks: 4 + t.Draw(16), MaxDepth: 2 + t.Draw(4), BlockPad: []int{0, 0, 40}[t.Draw(3)], Share: []int{100, 300, 500}[t.Draw(3)], Empty: []int{0, 0, 80}[t.Draw(3)], Alias: []int{0, 0, 100}[t.Draw(3)]})
 	s.split = GenSplit(t, s.dag)
 	cfg := NodeCfg{GateReads: true, GateCommits: true}
 	s.a = NewNode(w, "A", cfg)
